@@ -80,12 +80,17 @@ class BaseSpec:
 
     def oblige(self, I, name, goal, meta=None):
         full = f"{self.cur_fn}/{name}" if self.cur_fn else name
-        pc = I.st.full_pc()
+        st = I.st
+        core_pc = list(st.pc) + st.frame_facts()
+        axioms = list(st.h.axioms) + st.class_axioms()
+        pc = core_pc + axioms
         key = (full, tuple(p.get_id() for p in pc), goal.get_id())
         if key in self._seen:
             return
         self._seen.add(key)
-        self.obligations.append(Obligation(full, pc, goal, meta))
+        ob = Obligation(full, pc, goal, meta)
+        ob.n_core = len(core_pc)
+        self.obligations.append(ob)
 
     # ---- hooks (defaults refuse) -----------------------------------------------------------------
     def global_override(self, module, name):
@@ -288,6 +293,7 @@ def run_function(spec, label, body, max_paths=5000):
 
     def run(oracle):
         core._fresh_n[0] = 0
+        core.reset_frames()
         st = St()
         st.oracle = oracle
         I = Interp(st, spec)
@@ -295,6 +301,14 @@ def run_function(spec, label, body, max_paths=5000):
             body(I)
         except PathEnd:
             pass
+        except OutsideSubset as e:
+            # the construct is outside the subset on THIS path only: the path is undecided, the others are still explored
+            if os.environ.get("PYVC_DEBUG"):
+                traceback.print_exc()
+            msg = f"OUTSIDE-SUBSET: {e}"
+            if (label, msg) not in spec.undecided:
+                spec.undecided.append((label, msg))
+            info["error"] = msg
     t = time.time()
     try:
         info["paths"] = enumerate_paths(run, max_paths)
@@ -325,6 +339,20 @@ def execute(I, f, args=(), kwargs=None):
 # ------------------------------------------------------------------------------------------------
 def discharge(ob, timeout_ms=10000, want_model=True):
     t = time.time()
+    # staged: fewer hypotheses first (an 'unsat' with a subset of the hypotheses is a proof); the full set last
+    n_core = getattr(ob, "n_core", len(ob.pc))
+    core_pc, axioms = ob.pc[:n_core], ob.pc[n_core:]
+    ground_ax = [a for a in axioms if not state.has_quantifier(a)]
+    for stage, hyps in (("qf", [p for p in core_pc if not state.has_quantifier(p)] + ground_ax), ("no-heap-axioms", core_pc + ground_ax)):
+        s0 = z3.Solver()
+        s0.set("timeout", min(timeout_ms, 4000))
+        for p in hyps:
+            s0.add(p)
+        s0.add(z3.Not(ob.goal))
+        if s0.check() == z3.unsat:
+            ob.seconds = time.time() - t
+            ob.status, ob.backend = "discharged", "z3"
+            return ob
     s = z3.Solver()
     s.set("timeout", timeout_ms)
     for p in ob.pc:
